@@ -733,5 +733,272 @@ theorem unionRaw_valid (hA : A.Valid) (hB : B.Valid) : (unionRaw A B).Valid := b
 
 end union3
 
+/-! ### `concatenate` -/
+
+section concat
+variable (A : NFA σ₁ α) (B : NFA σ₂ α)
+
+/-- `state_map_a` of `concatenate` as a function. -/
+def cφa (q : σ₁) : Nat := 0 + posOf A.states q
+/-- `state_map_b` of `concatenate` as a function. -/
+def cφb (q : σ₂) : Nat := 0 + A.states.length + posOf B.states q
+
+def concatStates : List Nat :=
+  dedup (avals (stateMap A.states 0) ++ avals (stateMap B.states (0 + A.states.length)))
+
+def concatT0 : Tbl Nat α := (concatStates A B).map fun s => (s, [])
+
+def concatT2 : Tbl Nat α :=
+  loadPure B.states (cφb A B) B.trans (loadPure A.states (cφa A) A.trans (concatT0 A B))
+
+/-- The record `concatenate` passes to the constructor. -/
+def concatRaw : NFA Nat α :=
+  { states := concatStates A B, syms := sunion A.syms B.syms, init := cφa A A.init,
+    finals := dedup (B.finals.map (cφb A B)), trans :=
+      (A.finals.map (cφa A)).foldl (fun t k => Tbl.addTargets t k none [cφb A B B.init]) (concatT2 A B) }
+
+theorem cmapSpec_a : MapSpec (stateMap A.states 0) A.states (cφa A) :=
+  fun q => alookup_stateMap A.states 0 q
+
+theorem cmapSpec_b : MapSpec (stateMap B.states (0 + A.states.length)) B.states (cφb A B) :=
+  fun q => alookup_stateMap B.states (0 + A.states.length) q
+
+theorem cφa_mem_states {q : σ₁} (hq : q ∈ A.states) : cφa A q ∈ concatStates A B := by
+  unfold concatStates
+  rw [mem_dedup]
+  exact List.mem_append_left _ (avals_stateMap_mem A.states 0 hq)
+
+theorem cφb_mem_states {q : σ₂} (hq : q ∈ B.states) : cφb A B q ∈ concatStates A B := by
+  unfold concatStates
+  rw [mem_dedup]
+  exact List.mem_append_right _ (avals_stateMap_mem B.states _ hq)
+
+theorem cφa_ne_cφb {q : σ₁} (hq : q ∈ A.states) (q' : σ₂) : cφa A q ≠ cφb A B q' := by
+  have := posOf_lt hq
+  unfold cφa cφb; omega
+
+theorem cφa_inj : ∀ q ∈ A.states, ∀ q' ∈ A.states, cφa A q = cφa A q' → q = q' := by
+  intro q hq q' hq' h
+  unfold cφa at h
+  exact posOf_inj hq hq' (by omega)
+
+theorem cφb_inj : ∀ q ∈ B.states, ∀ q' ∈ B.states, cφb A B q = cφb A B q' → q = q' := by
+  intro q hq q' hq' h
+  unfold cφb at h
+  exact posOf_inj hq hq' (by omega)
+
+theorem akeys_concatT0 : akeys (concatT0 A B : Tbl Nat α) = concatStates A B := akeys_emptyRows _
+
+theorem ckeys1 : ∀ q ∈ A.states, cφa A q ∈ akeys (concatT0 A B : Tbl Nat α) := by
+  intro q hq; rw [akeys_concatT0]; exact cφa_mem_states A B hq
+
+theorem ckeys2 : ∀ q ∈ B.states,
+    cφb A B q ∈ akeys (loadPure A.states (cφa A) A.trans (concatT0 A B : Tbl Nat α)) := by
+  intro q hq
+  rw [akeys_loadPure A.states (cφa A) A.trans _ (ckeys1 A B), akeys_concatT0]
+  exact cφb_mem_states A B hq
+
+theorem akeys_concatT2 : akeys (concatT2 A B : Tbl Nat α) = concatStates A B := by
+  unfold concatT2
+  rw [akeys_loadPure B.states (cφb A B) B.trans _ (ckeys2 A B),
+    akeys_loadPure A.states (cφa A) A.trans _ (ckeys1 A B), akeys_concatT0]
+
+/-- Body of the bridging loop `for state in self.final_states: …setdefault("", set()).add(…)`. -/
+def bridgeStep (t : Tbl Nat α) (q : σ₁) : Res (Tbl Nat α) := do
+  let ka ← lookupE q (stateMap A.states 0)
+  let _ ← lookupE ka t
+  let ib ← lookupE B.init (stateMap B.states (0 + A.states.length))
+  pure (Tbl.addTargets t ka none [ib])
+
+theorem bridgeStep_eq (hB : B.WF) (t : Tbl Nat α) {q : σ₁} (hq : q ∈ A.states)
+    (hk : cφa A q ∈ akeys t) :
+    bridgeStep A B t q = .ok (Tbl.addTargets t (cφa A q) none [cφb A B B.init]) := by
+  have h1 : lookupE q (stateMap A.states 0) = .ok (cφa A q) := by
+    apply lookupE_of_alookup; rw [cmapSpec_a A]; simp [hq]
+  have h3 : lookupE B.init (stateMap B.states (0 + A.states.length)) = .ok (cφb A B B.init) := by
+    apply lookupE_of_alookup; rw [cmapSpec_b A B]; simp [hB.initOk]
+  obtain ⟨row, hrow⟩ : ∃ r, alookup (cφa A q) t = some r := by
+    have := alookup_isSome_iff.mpr hk
+    cases h : alookup (cφa A q) t with
+    | none => simp [h] at this
+    | some r => exact ⟨r, rfl⟩
+  unfold bridgeStep
+  rw [h1]
+  show (do
+    let _ ← lookupE (cφa A q) t
+    let ib ← lookupE B.init (stateMap B.states (0 + A.states.length))
+    pure (Tbl.addTargets t (cφa A q) none [ib])) = _
+  rw [lookupE_of_alookup hrow, h3]
+  rfl
+
+/-- The bridging loop never raises when every final state has a row, and is the pure fold. -/
+theorem bridge_eq (hB : B.WF) : ∀ (fin : List σ₁) (t : Tbl Nat α),
+    (∀ q ∈ fin, q ∈ A.states) → (∀ q ∈ A.states, cφa A q ∈ akeys t) →
+    fin.foldlM (bridgeStep A B) t =
+      .ok ((fin.map (cφa A)).foldl (fun t k => Tbl.addTargets t k none [cφb A B B.init]) t) := by
+  intro fin
+  induction fin with
+  | nil => intro t _ _; rfl
+  | cons q fin ih =>
+    intro t hfin hk
+    rw [List.foldlM_cons, bridgeStep_eq A B hB t (hfin q (by simp)) (hk q (hfin q (by simp)))]
+    show List.foldlM (bridgeStep A B) (Tbl.addTargets t (cφa A q) none [cφb A B B.init]) fin = _
+    rw [ih _ (fun q' h' => hfin q' (List.mem_cons_of_mem _ h'))
+      (fun q' h' => (Tbl.mem_akeys_addTargets _ _ _ _ _).mpr (Or.inr (hk q' h')))]
+    simp
+
+theorem concatenate_eq (hA : A.WF) (hB : B.WF) : concatenate A B = create (concatRaw A B) := by
+  have hl1 := load_eq (stateMap A.states 0) A.states (cφa A) (cmapSpec_a A) A.trans (concatT0 A B)
+    (fun kv hkv e he b hb => hA.tgtOk kv hkv e.2 (List.mem_map.mpr ⟨e, he, rfl⟩) b hb) (ckeys1 A B)
+  have hl2 := load_eq (stateMap B.states (0 + A.states.length)) B.states (cφb A B) (cmapSpec_b A B) B.trans
+    (loadPure A.states (cφa A) A.trans (concatT0 A B))
+    (fun kv hkv e he b hb => hB.tgtOk kv hkv e.2 (List.mem_map.mpr ⟨e, he, rfl⟩) b hb) (ckeys2 A B)
+  have hbr := bridge_eq A B hB A.finals (concatT2 A B) hA.finalsOk
+    (fun q hq => by rw [akeys_concatT2]; exact cφa_mem_states A B hq)
+  have hfb := mapM_finals (stateMap B.states (0 + A.states.length)) B.states (cφb A B) (cmapSpec_b A B)
+    B.finals hB.finalsOk
+  have hia : lookupE A.init (stateMap A.states 0) = .ok (cφa A A.init) := by
+    apply lookupE_of_alookup; rw [cmapSpec_a A]; simp [hA.initOk]
+  unfold concatenate
+  simp only [getStateMaps]
+  show (do
+    let t1 ← loadNewTransitionDict (stateMap A.states 0) A.trans (concatT0 A B)
+    let t2 ← loadNewTransitionDict (stateMap B.states (0 + A.states.length)) B.trans t1
+    let t3 ← A.finals.foldlM (bridgeStep A B) t2
+    let fb ← B.finals.mapM fun q => lookupE q (stateMap B.states (0 + A.states.length))
+    let ia ← lookupE A.init (stateMap A.states 0)
+    create { states := concatStates A B, syms := sunion A.syms B.syms, trans := t3, init := ia,
+             finals := dedup fb }) = _
+  rw [hl1]
+  show (do
+    let t2 ← loadNewTransitionDict (stateMap B.states (0 + A.states.length)) B.trans
+      (loadPure A.states (cφa A) A.trans (concatT0 A B))
+    let t3 ← A.finals.foldlM (bridgeStep A B) t2
+    let fb ← B.finals.mapM fun q => lookupE q (stateMap B.states (0 + A.states.length))
+    let ia ← lookupE A.init (stateMap A.states 0)
+    create { states := concatStates A B, syms := sunion A.syms B.syms, trans := t3, init := ia,
+             finals := dedup fb }) = _
+  rw [hl2]
+  show (do
+    let t3 ← A.finals.foldlM (bridgeStep A B) (concatT2 A B)
+    let fb ← B.finals.mapM fun q => lookupE q (stateMap B.states (0 + A.states.length))
+    let ia ← lookupE A.init (stateMap A.states 0)
+    create { states := concatStates A B, syms := sunion A.syms B.syms, trans := t3, init := ia,
+             finals := dedup fb }) = _
+  rw [hbr]
+  show (do
+    let fb ← B.finals.mapM fun q => lookupE q (stateMap B.states (0 + A.states.length))
+    let ia ← lookupE A.init (stateMap A.states 0)
+    create { states := concatStates A B, syms := sunion A.syms B.syms,
+             trans := (A.finals.map (cφa A)).foldl (fun t k => Tbl.addTargets t k none [cφb A B B.init]) (concatT2 A B),
+             init := ia, finals := dedup fb }) = _
+  rw [hfb]
+  show (do
+    let ia ← lookupE A.init (stateMap A.states 0)
+    create { states := concatStates A B, syms := sunion A.syms B.syms,
+             trans := (A.finals.map (cφa A)).foldl (fun t k => Tbl.addTargets t k none [cφb A B B.init]) (concatT2 A B),
+             init := ia, finals := dedup (B.finals.map (cφb A B)) }) = _
+  rw [hia]
+  rfl
+
+/-- Reading of the loaded tables (before the bridging ε-moves). -/
+theorem concatT2_targets_a (hA : A.Valid) {q : σ₁} (hq : q ∈ A.states) (a : Option α) (p : Nat) :
+    p ∈ Tbl.tgt (concatT2 A B) (cφa A q) a ↔ ∃ t ∈ A.targets q a, p = cφa A t := by
+  have h1 : Tbl.tgt (concatT2 A B) (cφa A q) a =
+      Tbl.tgt (loadPure A.states (cφa A) A.trans (concatT0 A B)) (cφa A q) a := by
+    unfold Tbl.tgt concatT2
+    rw [alookup_loadPure_other B.states (cφb A B) B.trans _ (cφa A q)
+      (fun q' _ => (cφa_ne_cφb A B hq q').symm)]
+  rw [h1, tgt_loadPure_state A.states (cφa A) (cφa_inj A) A.trans _ hA.dict q hq a]
+  have h0 : Tbl.tgt (concatT0 A B) (cφa A q) a = [] := tgt_emptyRows _ _ _
+  rw [h0, ← mem_renamed_iff A (cφa A) q a p]
+  cases alookup q A.trans with
+  | none => rfl
+  | some es => cases alookup a es <;> rfl
+
+theorem concatT2_targets_b (hB : B.Valid) {q : σ₂} (hq : q ∈ B.states) (a : Option α) (p : Nat) :
+    p ∈ Tbl.tgt (concatT2 A B) (cφb A B q) a ↔ ∃ t ∈ B.targets q a, p = cφb A B t := by
+  unfold concatT2
+  rw [tgt_loadPure_state B.states (cφb A B) (cφb_inj A B) B.trans _ hB.dict q hq a]
+  have h0 : Tbl.tgt (loadPure A.states (cφa A) A.trans (concatT0 A B)) (cφb A B q) a = [] := by
+    have : Tbl.tgt (loadPure A.states (cφa A) A.trans (concatT0 A B)) (cφb A B q) a =
+        Tbl.tgt (concatT0 A B) (cφb A B q) a := by
+      unfold Tbl.tgt
+      rw [alookup_loadPure_other A.states (cφa A) A.trans _ (cφb A B q)
+        (fun q' hq' => cφa_ne_cφb A B hq' q)]
+    rw [this]; exact tgt_emptyRows _ _ _
+  rw [h0, ← mem_renamed_iff B (cφb A B) q a p]
+  cases alookup q B.trans with
+  | none => rfl
+  | some es => cases alookup a es <;> rfl
+
+/-- Reading of the concatenation automaton at the image of a state of `A`: `A`'s moves,
+renamed, plus the ε-move from every final state to the image of `B`'s initial state. -/
+theorem concatRaw_targets_a (hA : A.Valid) {q : σ₁} (hq : q ∈ A.states) (a : Option α) (p : Nat) :
+    p ∈ (concatRaw A B).targets (cφa A q) a ↔
+      (∃ t ∈ A.targets q a, p = cφa A t) ∨ (a = none ∧ q ∈ A.finals ∧ p = cφb A B B.init) := by
+  rw [targets_eq_tgt]
+  simp only [concatRaw]
+  rw [mem_tgt_foldl_addTargets, concatT2_targets_a A B hA hq]
+  constructor
+  · rintro (h | ⟨h1, h2, h3⟩)
+    · exact Or.inl h
+    · obtain ⟨q', hq', e⟩ := List.mem_map.mp h1
+      have := cφa_inj A q' (hA.wf.finalsOk q' hq') q hq e
+      exact Or.inr ⟨h2, this ▸ hq', h3⟩
+  · rintro (h | ⟨h1, h2, h3⟩)
+    · exact Or.inl h
+    · exact Or.inr ⟨List.mem_map.mpr ⟨q, h2, rfl⟩, h1, h3⟩
+
+theorem concatRaw_targets_b (hA : A.WF) (hB : B.Valid) {q : σ₂} (hq : q ∈ B.states) (a : Option α) (p : Nat) :
+    p ∈ (concatRaw A B).targets (cφb A B q) a ↔ ∃ t ∈ B.targets q a, p = cφb A B t := by
+  rw [targets_eq_tgt]
+  simp only [concatRaw]
+  rw [mem_tgt_foldl_addTargets, concatT2_targets_b A B hB hq]
+  constructor
+  · rintro (h | ⟨h1, _, _⟩)
+    · exact h
+    · obtain ⟨q', hq', e⟩ := List.mem_map.mp h1
+      exact absurd e (cφa_ne_cφb A B (hA.finalsOk q' hq') q)
+  · exact Or.inl
+
+theorem mem_concatRaw_finals (k : Nat) :
+    k ∈ (concatRaw A B).finals ↔ ∃ q ∈ B.finals, k = cφb A B q := by
+  simp only [concatRaw, mem_dedup, List.mem_map]
+  constructor
+  · rintro ⟨q, hq, rfl⟩; exact ⟨q, hq, rfl⟩
+  · rintro ⟨q, hq, rfl⟩; exact ⟨q, hq, rfl⟩
+
+theorem concatRaw_valid (hA : A.Valid) (hB : B.Valid) : (concatRaw A B).Valid := by
+  have okA := ((wf_iff_ok A).mp hA.wf).1
+  have okB := ((wf_iff_ok B).mp hB.wf).1
+  have okT2 : Tbl.Ok (SymOk (sunion A.syms B.syms)) (· ∈ concatStates A B) (concatT2 A B) := by
+    unfold concatT2
+    refine ok_loadPure B.states (cφb A B) B.trans _ (ok_loadPure A.states (cφa A) A.trans _ (ok_emptyRows _) ?_) ?_
+    · intro kv hkv _ e he
+      exact ⟨symOk_sunion_left A B (okA kv hkv e he).1,
+        fun b hb => cφa_mem_states A B ((okA kv hkv e he).2 b hb)⟩
+    · intro kv hkv _ e he
+      exact ⟨symOk_sunion_right A B (okB kv hkv e he).1,
+        fun b hb => cφb_mem_states A B ((okB kv hkv e he).2 b hb)⟩
+  have dT2 : Tbl.Dict (concatT2 A B : Tbl Nat α) := by
+    unfold concatT2
+    exact dict_loadPure _ _ _ _ (dict_loadPure _ _ _ _ (dict_emptyRows _ (nodup_dedup _)))
+  refine ⟨?_, ?_⟩
+  · rw [wf_iff_ok]
+    refine ⟨?_, cφa_mem_states A B hA.wf.initOk, Or.inl ?_, ?_⟩
+    · simp only [concatRaw]
+      exact ok_foldl_addTargets _ none (symOk_none _) (cφb_mem_states A B hB.wf.initOk) _ _ okT2
+    · simp only [concatRaw]
+      rw [mem_akeys_foldl_addTargets, akeys_concatT2]
+      exact Or.inr (cφa_mem_states A B hA.wf.initOk)
+    · intro k hk
+      obtain ⟨q, hq, rfl⟩ := (mem_concatRaw_finals A B k).mp hk
+      exact cφb_mem_states A B (hB.wf.finalsOk q hq)
+  · simp only [concatRaw]
+    exact dict_foldl_addTargets _ _ _ _ dT2
+
+end concat
+
 end NFA
 end AV
